@@ -47,6 +47,24 @@ def rules(ctx):
         # the b == t branch: item only via the CAS
         cas = flow.find(fn, TOP_CAS)
         ctx.check(bool(cas), rid, inst + "#last-item-cas", "last item decided by a CAS on _top", "try_pop does not race thieves for the last item with a CAS on _top", fn.where(), fn=fn)
+        # after LOSING the CAS on _top the owner restores _bottom to the CURRENT top: the value it stores must be the CAS's own expected variable
+        # (refreshed by the failed CAS) or a reload of _top - a copy of the pre-CAS top leaves _bottom == _top - 1 (size() wraps around, the
+        # next push is lost or rejected)
+        for c_ in cas:
+            expn = fn.nodes[fn.kids(c_)[1]]
+            succ_edges, _n = flow.licensed_edges(fn, lambda f, a_: True if a_ == c_ else None)
+            for s_ in stores:
+                if s_ in dec or not fn.event_reaches(c_, s_, removed_edges=succ_edges):
+                    continue
+                v_ = fn.kids(s_)[1]
+                if not flow.has_src(fn, v_, "load:_top"):
+                    continue
+                names = {fn.nodes[x]["name"] for x in fn.subtree(v_) if fn.nodes[x]["k"] == "ref" and fn.nodes[x].get("dk") == "local"}
+                fresh = (expn["k"] == "ref" and expn.get("name") in names) or any(fn.before(c_, l_) for l_ in flow.src_loads(fn, v_) if fn.atomic(l_)["field"].endswith("_top"))
+                ctx.check(fresh, rid, inst + "#lost-cas-restores-current-top", "after a lost CAS _bottom is restored from the refreshed top",
+                          "after losing the CAS on _top, _bottom is set to %s - a copy of _top taken BEFORE the CAS (the CAS refreshes only its own expected variable '%s'): "
+                          "_bottom ends one below _top, size() wraps around and the next pushed item is lost (growing container) or rejected (fixed container)" % (
+                              fn.expr(v_), expn.get("name", fn.expr(fn.kids(c_)[1]))), fn.where(s_), fn=fn)
         gt = lambda f, nid: flow.cmp_between(f, nid, (">", "<"), ["load:_bottom"], ["load:_top"])
         for r in [r for r in flow.find(fn, {"k": "return"}) if fn.kids(r) and fn.nodes[fn.kids(r)[0]].get("v") == 1]:
             ok1, p1, n1 = flow.only_via(fn, r, lambda f, nid: nid in cas or gt(f, nid), True)
@@ -68,6 +86,19 @@ def rules(ctx):
         for c in cas:
             ok, p, n = flow.only_via(fn, c, sz, False)
             ctx.check(ok and n > 0, rid, inst + "#cas|non-empty", "steal attempted only when size > 0", "a steal is attempted on an empty deque", fn.where(c), fn=fn)
+
+    # grow(bottom, top): the live range is handed over in the order the callee uses it
+    for fn in flow._shapes(ctx, D + "try_push"):
+        for g_ in flow.find(fn, call("grow")):
+            args = fn.kids(g_)[1:]
+            roles = _grow_roles(ctx)
+            if roles is None or len(args) != 2:
+                continue
+            want = {roles["bound"]: "load:_bottom", roles["start"]: "load:_top"}
+            ok = all(flow.has_src(fn, args[i_], want[i_]) and not flow.has_src(fn, args[i_], want[1 - i_]) for i_ in (0, 1))
+            ctx.check(ok, rid, D + "try_push#grow(bottom,top)", "grow() receives _bottom as the end and _top as the start of the live range",
+                      "grow() is called with (%s, %s) but its parameter #%d is the END of the range to re-index (the loop bound) and parameter #%d its START: with the "
+                      "arguments swapped no live entry is moved to its new slot" % (fn.expr(args[0]), fn.expr(args[1]), roles["bound"], roles["start"]), fn.where(g_), fn=fn)
 
     rid2 = "WSD.index-mapping"
     ctx.rule(rid2, "circular array: masks (pow2-1) are only operands of '&'/'~'; grow() re-indexes with the same mapping as get_entry for the old and the doubled "
@@ -192,6 +223,23 @@ def rules(ctx):
         ok = any(n["k"] == "bin" and n["op"] in ("&", "&=") and flow.has_src(fn, e, "param#1") for e, n in enumerate(fn.nodes))
         ctx.check(ok, rid2, G + "get_entry#idx&(capacity-1)", "logical position reduced with & (capacity-1)", "get_entry does not reduce the position with the capacity mask", fn.where(), fn=fn)
     chain(ctx, rid2, G + "get", [{"k": "call", "field": "_capacity", "op": "load", "desc": "_capacity.load"}, call("get_entry")], label="capacity-load<index")
+
+
+def _grow_roles(ctx):
+    """which parameter of growing_circular_array::grow bounds the copy loop (end of the live range) and which one starts it"""
+    for fn in ctx.facts.shapes(G + "grow"):
+        if len(fn.params) != 2:
+            return None
+        for b, blk in fn.blocks.items():
+            if "cond" in blk and blk.get("term") in ("ForStmt", "WhileStmt"):
+                c = flow.eq_cmp(fn, blk["cond"])
+                n = fn.nodes[blk["cond"]]
+                if n["k"] == "bin" and n["op"] in ("<", "!=", "<=") and len(fn.kids(blk["cond"])) == 2:
+                    rhs = fn.kids(blk["cond"])[1]
+                    for i_ in (0, 1):
+                        if flow.has_src(fn, rhs, "param#%d" % i_) and not flow.has_src(fn, rhs, "param#%d" % (1 - i_)):
+                            return {"bound": i_, "start": 1 - i_}
+    return None
 
 
 def stable_slot(ctx):
